@@ -65,7 +65,8 @@ func (t PredefinedTopics) GetTopicID(clientID, topic string) (uint16, bool) {
 // the given map (src) values take precedence.
 func (t PredefinedTopics) Merge(src PredefinedTopics) {
 	for clientID := range src {
-		if _, ok := t[clientID]; !ok {
+		// A client section without entries in a YAML file is a nil map.
+		if t[clientID] == nil {
 			t[clientID] = src[clientID]
 			continue
 		}
